@@ -6,6 +6,7 @@ package layout
 
 import (
 	"sort"
+	"strings"
 
 	"github.com/tsawler/tabula/model"
 	"github.com/tsawler/tabula/text"
@@ -393,8 +394,33 @@ func (a *Analyzer) Analyze(fragments []text.TextFragment, pageWidth, pageHeight 
 func (a *Analyzer) buildElementTree(result *AnalysisResult) []LayoutElement {
 	var elements []LayoutElement
 
-	// Track which paragraphs have been consumed by headings or lists
-	consumedParaIndices := make(map[int]bool)
+	// Lines that are already represented by a heading or a list item. Paragraphs
+	// give up exactly those lines: every line of the page ends up in one element,
+	// none is shown twice and none is lost because its paragraph merely overlaps
+	// a heading or list.
+	// (detectors group the page's fragments into lines differently - per column or
+	// across the page - so lines are compared through the fragments they hold)
+	type lineKey struct {
+		text string
+		x, y float64
+	}
+	claimed := make(map[lineKey]bool)
+	claim := func(l Line) {
+		for _, f := range l.Fragments {
+			claimed[lineKey{f.Text, f.X, f.Y}] = true
+		}
+	}
+	isClaimed := func(l Line) bool {
+		if len(l.Fragments) == 0 {
+			return false
+		}
+		for _, f := range l.Fragments {
+			if !claimed[lineKey{f.Text, f.X, f.Y}] {
+				return false
+			}
+		}
+		return true
+	}
 
 	// Add headings
 	if result.Headings != nil {
@@ -408,14 +434,8 @@ func (a *Analyzer) buildElementTree(result *AnalysisResult) []LayoutElement {
 				Lines:   heading.Lines,
 			}
 			elements = append(elements, elem)
-
-			// Mark overlapping paragraphs as consumed
-			if result.Paragraphs != nil {
-				for j, para := range result.Paragraphs.Paragraphs {
-					if bboxOverlaps(heading.BBox, para.BBox) {
-						consumedParaIndices[j] = true
-					}
-				}
+			for _, l := range heading.Lines {
+				claim(l)
 			}
 		}
 	}
@@ -431,23 +451,39 @@ func (a *Analyzer) buildElementTree(result *AnalysisResult) []LayoutElement {
 				List:  &list,
 			}
 			elements = append(elements, elem)
-
-			// Mark overlapping paragraphs as consumed
-			if result.Paragraphs != nil {
-				for j, para := range result.Paragraphs.Paragraphs {
-					if bboxOverlaps(list.BBox, para.BBox) {
-						consumedParaIndices[j] = true
-					}
+			for _, item := range list.Items {
+				for _, l := range item.Lines {
+					claim(l)
 				}
 			}
 		}
 	}
 
-	// Add remaining paragraphs
+	// Add paragraphs, reduced to the lines nobody else has claimed
 	if result.Paragraphs != nil {
 		for i, para := range result.Paragraphs.Paragraphs {
-			if consumedParaIndices[i] {
-				continue
+			para := para
+			if len(para.Lines) > 0 {
+				rest := make([]Line, 0, len(para.Lines))
+				for _, l := range para.Lines {
+					if !isClaimed(l) {
+						rest = append(rest, l)
+					}
+				}
+				if len(rest) == 0 {
+					continue
+				}
+				if len(rest) != len(para.Lines) {
+					texts := make([]string, len(rest))
+					bbox := rest[0].BBox
+					for k, l := range rest {
+						texts[k] = l.Text
+						bbox = bbox.Union(l.BBox)
+					}
+					para.Lines = rest
+					para.Text = strings.Join(texts, " ")
+					para.BBox = bbox
+				}
 			}
 			elem := LayoutElement{
 				Type:      model.ElementTypeParagraph,
